@@ -33,12 +33,15 @@ def target_functions():
         "nested_sampling_loop": NS.nested_sampling_loop, "finalise": NS.finalise, "fp_draw": fpmod.FlowProposal.draw, "fp_populate": fpmod.FlowProposal.populate,
         "fp_train": fpmod.FlowProposal.train, "an_draw": anmod.AnalyticProposal.draw, "rj_populate": rjmod.RejectionProposal.populate,
         "increment": evmod._NSIntegralState.increment,
+        # before the first iteration: the initial live set is drawn inside the sampling loop's initialisation
+        "populate_live_points": NS.populate_live_points, "initialise": NS.initialise,
     }
     ins = {
         "ins_loop": INS.nested_sampling_loop, "add_and_update_points": INS.add_and_update_points, "ins_remove_samples": INS.remove_samples,
         "add_new_proposal": INS.add_new_proposal, "add_new_proposal_weight": INS.add_new_proposal_weight, "os_add_samples": OS.add_samples,
         "os_remove_samples": OS.remove_samples, "os_add_to_nested": OS.add_to_nested_samples, "ifp_draw": ipmod.ImportanceFlowProposal.draw,
         "ifp_train": ipmod.ImportanceFlowProposal.train, "ins_update_evidence": INS.update_evidence, "ins_finalise": INS.finalise,
+        "ins_populate_live_points": INS.populate_live_points, "ins_initialise": INS.initialise,
     }
     return std, ins
 
@@ -641,12 +644,14 @@ def main():
     std_phases = [1, 30, 61, 120]          # first iteration, uninformed phase, the switch/first training, late flow phase
     ins_phases = [0, 2, 4]
     cases = []
-    core = {"consume_sample", "yield_sample", "insert_live_point", "increment"}
+    core = {"consume_sample", "yield_sample", "insert_live_point", "increment", "populate_live_points"}
     for k, t in enumerate(targets):
         rng = rng_for(chk.seed, "C13", t["func"], t["rel"])
         phases = std_phases if t["sampler"] == "std" else ins_phases
         if t["func"] in ("an_draw", "rj_populate"):
             phases = [1, 12, 30, 55]    # the uninformed proposals are only in use until the switch to the flow proposal (iteration 60 here)
+        if t["func"] in ("populate_live_points", "initialise", "ins_populate_live_points", "ins_initialise"):
+            phases = [0]                # the initial draw, before the first iteration
         if chk.quick:
             # every line of the core replace step once, every 2nd-3rd line elsewhere, phase chosen by the seed
             if t["func"] not in core and t["sampler"] == "std" and k % 3:
